@@ -161,6 +161,15 @@ type ZText struct {
 	Words string `capnp:"text"`
 }
 
+// one list member each (fixed discriminant): the list fields of every element width are live in
+// every case, so that foreign encodings of them (upgraded composite lists) are exercised
+type ZU8vec struct{ U8vec []uint8 }
+type ZI8vec struct{ I8vec []int8 }
+type ZI32vec struct{ I32vec []int32 }
+type ZU64vec struct{ U64vec []uint64 }
+type ZDatavec struct{ Datavec [][]byte }
+type ZBoolvec struct{ Boolvec []bool }
+
 // embedding
 type ZNums struct {
 	I64 int64
@@ -454,6 +463,58 @@ type EmbThreeUntTag struct { // ... unless exactly one tagged candidate is on th
 	EUntC
 }
 
+// Deep embedding chains with several mapped sibling fields in the innermost struct (field paths
+// of length 4, 5 and 6; by value and by pointer; 2 and 3 siblings of the same Go type).
+type N3Leaf struct { // PlaneBase: rating, capacity :Int64, maxSpeed :Float64
+	Rating   int64
+	Capacity int64
+	MaxSpeed float64
+}
+type N3L2 struct{ N3Leaf }
+type N3L1 struct {
+	N3L2
+	CanFly bool
+}
+type Nest3 struct { // Nest3.N3L1.N3L2.N3Leaf.{Rating,Capacity,MaxSpeed}: paths of length 4
+	N3L1
+	Name string
+}
+type N3pL2 struct{ *N3Leaf }
+type N3pL1 struct{ *N3pL2 }
+type Nest3Ptr struct {
+	*N3pL1
+	Homes []uint16
+}
+type N4L0 struct{ N3L1 }
+type Nest4 struct{ N4L0 } // paths of length 5
+type N5L0 struct{ N4L0 }
+type Nest5 struct { // paths of length 6
+	N5L0
+	Name string
+}
+type NDLeaf struct { // Zdate: month, day :UInt8
+	Month uint8
+	Day   uint8
+}
+type NDL2 struct {
+	NDLeaf
+	Year int16
+}
+type NDL1 struct{ *NDL2 }
+type NestDate struct{ NDL1 } // NestDate.NDL1.NDL2.NDLeaf.{Month,Day}: length 4 below a pointer; Year length 3
+type NRLeaf struct {         // Regression: b0, ymu, ysd :Float64, beta :List(Float64)
+	B0   float64
+	Ymu  float64
+	Ysd  float64
+	Beta []float64
+}
+type NRL2 struct{ NRLeaf }
+type NRL1 struct{ NRL2 }
+type NestReg struct {
+	NRL1
+	Base PlaneBase
+}
+
 func airID(name string) uint64 {
 	for id, t := range verifair.GenTypes {
 		if t.Name() == name {
@@ -476,6 +537,12 @@ func allSchemas() []*mschema {
 		air("ZF64", ZF64{}, "Z"),
 		air("ZText", ZText{}, "Z"),
 		air("EmbedZ", EmbedZ{}, "Z"),
+		air("ZU8vec", ZU8vec{}, "Z"),
+		air("ZI8vec", ZI8vec{}, "Z"),
+		air("ZI32vec", ZI32vec{}, "Z"),
+		air("ZU64vec", ZU64vec{}, "Z"),
+		air("ZDatavec", ZDatavec{}, "Z"),
+		air("ZBoolvec", ZBoolvec{}, "Z"),
 		air("Zdate", Zdate{}, "Zdate"),
 		air("PlaneBase", PlaneBase{}, "PlaneBase"),
 		air("Regression", Regression{}, "Regression"),
@@ -510,6 +577,12 @@ func allSchemas() []*mschema {
 		air("EmbTopWins", EmbTopWins{}, "VerTwoData"),
 		air("EmbUntThenDeepTag", EmbUntThenDeepTag{}, "VerTwoData"),
 		air("EmbUntThenDeepTagRev", EmbUntThenDeepTagRev{}, "VerTwoData"),
+		air("Nest3", Nest3{}, "PlaneBase"),
+		air("Nest3Ptr", Nest3Ptr{}, "PlaneBase"),
+		air("Nest4", Nest4{}, "PlaneBase"),
+		air("Nest5", Nest5{}, "PlaneBase"),
+		air("NestDate", NestDate{}, "Zdate"),
+		air("NestReg", NestReg{}, "Regression"),
 		air("EmbThreeUnt", EmbThreeUnt{}, "VerTwoData"),
 		air("EmbThreeUntTag", EmbThreeUntTag{}, "VerTwoData"),
 	}
